@@ -12,5 +12,5 @@ let register name f = table := (name, f) :: !table
 
 (* optional projection of an observation (and of the model's output) to the observables a property's predicate reads;
    the correspondence for that property is checked on the projection *)
-let projections : (string * (string -> Sx.t -> Sx.t)) list ref = ref []
+let projections : (string * (string -> Sx.t -> Sx.t -> Sx.t)) list ref = ref []   (* property, input, observation *)
 let register_projection name f = projections := (name, f) :: !projections
